@@ -2,13 +2,17 @@ import Mdsort.Proofs.FlagsTime
 import Mdsort.Proofs.WorldMtime
 import Mdsort.Proofs.WorldGenname
 import Mdsort.Proofs.WorldMain
+import Mdsort.Proofs.DestEval
+import Mdsort.Proofs.DestExact
+import Mdsort.Proofs.FlagsSeq
 
 /-!
 # C09 - maildir names, flags, subdirectories and timestamps (flag algebra)
 
-This file holds the pure part: parsing flags from a file name, writing them back, and the
-`S` adjustment.  Destination (maildir/subdirectory of a sequence of move/flag/flags actions),
-fresh names and timestamps are world-level statements (Props/World).
+This file holds the pure part (parsing flags from a file name, writing them back, the `S`
+adjustment, the destination a sequence of move/flag/flags actions computes) and the world-level
+statements: modification time, fresh names, nothing replaced, and the flag set / the name of the
+message after a whole action list (`C09_S_after_sequence`).
 -/
 
 namespace Mdsort.Props
@@ -327,5 +331,262 @@ example :
     ((move otherDev statFails).2.1.file 1).map (·.data) = some [121] ∧
     (move otherDev statFails).2.2.length = 13 := by
   decide +kernel
+
+/-! ## Destination of a sequence of move / flag / flags actions
+
+`Spec.dest`: (maildir of the last `move`, else the message's) / (subdirectory of the last `flag`, else
+the message's).  `Model.finalPlace env ml0 actions`: `matches_append` of the actions' entries after the
+match list `ml0`, then the `mh_path` of the last move/flag/flags entry (where `matches_exec` leaves the
+message).  The pinned code agrees with the documentation exactly on `Spec.destOK` (finding F12). -/
+
+/-- For every message `root/sub/name` (`root` not empty, absolute or relative; no `/` in `sub` and `name`,
+`sub` shorter than `NAME_MAX + 1`), every sequence of move/flag/flags actions with non-empty names whose
+joined paths fit `PATH_MAX`, evaluated after any match list without move/flag/flags entries: if the
+sequence is in `Spec.destOK`, the message ends in the documented place. -/
+theorem C09_destination_partial (env : Env) (root sub name : Bytes) (ml0 : MatchList) (actions : List Spec.PathAction)
+    (hpath : env.path = root ++ [47] ++ sub ++ [47] ++ name)
+    (hroot : root ≠ []) (hsub : (47 : UInt8) ∉ sub) (hname : (47 : UInt8) ∉ name)
+    (hsubl : sub.length < NAME_MAX1)
+    (hwf : Spec.actionsWF actions = true) (hfit : Spec.destFits PATH_MAX (root, sub) actions = true)
+    (hml0 : ∀ e ∈ ml0, e.moves = false) (hok : Spec.destOK actions = true) :
+    finalPlace env ml0 actions = if actions.isEmpty then none else some (Spec.destPath (root, sub) actions) :=
+  Proofs.Dest.finalPlace_eq_dest env root sub name ml0 actions hpath hroot hsub hname hsubl hwf hfit hml0 hok
+
+/-- The same for `Model.eval` itself: `c` is the expression the grammar builds from the action list of a
+rule (move / flag / flags nodes joined by `and`; `Proofs.Dest.ActionChain` relates it to the actions with
+their line numbers and asks that each node passes its own length / letter check).  Evaluated in any state
+whose match list has no move/flag/flags entry it matches, and the last move/flag/flags entry of the
+resulting match list - the one whose `mh_path` the message is finally moved to - has the documented path. -/
+theorem C09_destination_eval (env : Env) (rootMsg m : Msg) (st : St) (part : Nat) (c : Expr)
+    (ls : List (Nat × Spec.PathAction)) (hc : Proofs.Dest.ActionChain c ls) (root sub name : Bytes)
+    (hpath : env.path = root ++ [47] ++ sub ++ [47] ++ name)
+    (hroot : root ≠ []) (hsub : (47 : UInt8) ∉ sub) (hname : (47 : UInt8) ∉ name)
+    (hsubl : sub.length < NAME_MAX1)
+    (hwf : Spec.actionsWF (ls.map (·.2)) = true) (hfit : Spec.destFits PATH_MAX (root, sub) (ls.map (·.2)) = true)
+    (hst : ∀ e ∈ st.ml, e.moves = false) (hok : Spec.destOK (ls.map (·.2)) = true) :
+    ∃ st', eval env rootMsg c part m st = (.match, st') ∧
+      lastPath st'.ml = some (Spec.destPath (root, sub) (ls.map (·.2))) :=
+  Proofs.Dest.eval_chain_dest env rootMsg m st part c ls hc root sub name hpath hroot hsub hname hsubl hwf hfit hst hok
+
+/-- `Spec.destOK` is exact: for all 1093 sequences of at most 6 actions whose names are pairwise distinct (and
+distinct from the message's maildir `/S` and subdirectory `old`), the model ends in the documented place
+if and only if `destOK` holds. -/
+theorem C09_destOK_exact_upto_6 :
+    ∀ n ∈ List.range 7, ∀ ks ∈ Proofs.Dest.kindSeqs n,
+      Proofs.Dest.agrees ks = Spec.destOK (Proofs.Dest.genActions ks) :=
+  Proofs.Dest.destOK_exact_upto_6
+
+/-- The same statement without `Spec.destOK`: what the documentation promises.  It is false. -/
+def C09_destination : Prop :=
+  ∀ (env : Env) (root sub name : Bytes) (ml0 : MatchList) (actions : List Spec.PathAction),
+    env.path = root ++ [47] ++ sub ++ [47] ++ name →
+    root ≠ [] → (47 : UInt8) ∉ sub → (47 : UInt8) ∉ name → sub.length < NAME_MAX1 →
+    Spec.actionsWF actions = true → Spec.destFits PATH_MAX (root, sub) actions = true →
+    (∀ e ∈ ml0, e.moves = false) →
+    finalPlace env ml0 actions = if actions.isEmpty then none else some (Spec.destPath (root, sub) actions)
+
+/-- Environment of the witnesses: the message `/S/new/1`. -/
+def destWitnessEnv : Env where
+  rx := fun _ _ => .nomatch
+  command := fun _ => 0
+  isDir := fun _ => false
+  now := 0
+  strptime := fun _ => none
+  zoneName := fun _ => none
+  fileTime := fun _ => none
+  dryrun := false
+  path := [47, 83, 47, 110, 101, 119, 47, 49]
+
+/-- F12, first class: `move "/D" flags "F"` on `/S/new/1` moves the message to `/D/new` and then back to
+`/S/new` (the `flags` entry takes its destination from the original path). -/
+theorem C09_destination_witness_flags_after_move :
+    Spec.destOK [.move [47, 68], .flags [70]] = false ∧
+    finalPlace destWitnessEnv [] [.move [47, 68], .flags [70]] = some [47, 83, 47, 110, 101, 119] ∧
+    Spec.destPath ([47, 83], [110, 101, 119]) [.move [47, 68], .flags [70]] = [47, 68, 47, 110, 101, 119] := by
+  decide
+
+/-- F12, second class: `move "/B" flag new flag !new` on `/S/new/1` ends in `/S/cur`, not `/B/cur` (the
+"consecutive duplicates" branch of `matches_merge` frees the entry that had inherited `/B`). -/
+theorem C09_destination_witness_duplicate_merge :
+    Spec.destOK [.move [47, 66], .flag [110, 101, 119], .flag [99, 117, 114]] = false ∧
+    finalPlace destWitnessEnv [] [.move [47, 66], .flag [110, 101, 119], .flag [99, 117, 114]]
+      = some [47, 83, 47, 99, 117, 114] ∧
+    Spec.destPath ([47, 83], [110, 101, 119]) [.move [47, 66], .flag [110, 101, 119], .flag [99, 117, 114]]
+      = [47, 66, 47, 99, 117, 114] := by
+  decide
+
+theorem C09_destination_false : ¬ C09_destination := by
+  intro h
+  have h1 := h destWitnessEnv [47, 83] [110, 101, 119] [49] [] [.move [47, 68], .flags [70]] rfl (by decide) (by decide) (by decide)
+    (by decide) (by decide) (by decide) (by intro e he; cases he)
+  rw [C09_destination_witness_flags_after_move.2.1] at h1
+  revert h1
+  decide
+
+/-! Non-vacuity: `flags "F" move "/A" flag !new move "/B" flag new` on `/S/new/1` (both kinds occur twice,
+the last two differ) satisfies every hypothesis, and ends in `/B/new`. -/
+example : Spec.destOK [.flags [70], .move [47, 65], .flag [99, 117, 114], .move [47, 66], .flag [110, 101, 119]] = true ∧
+    Spec.actionsWF [.flags [70], .move [47, 65], .flag [99, 117, 114], .move [47, 66], .flag [110, 101, 119]] = true ∧
+    Spec.destFits PATH_MAX ([47, 83], [110, 101, 119])
+      [.flags [70], .move [47, 65], .flag [99, 117, 114], .move [47, 66], .flag [110, 101, 119]] = true ∧
+    finalPlace destWitnessEnv [] [.flags [70], .move [47, 65], .flag [99, 117, 114], .move [47, 66], .flag [110, 101, 119]]
+      = some [47, 66, 47, 110, 101, 119] := by
+  decide
+
+/-! Non-vacuity of `C09_destination_eval`: the expression of `flags "F" move "/A" flag !new` (lines 3, 4, 5),
+`(flags and move) and flag` as parse.y nests it, is an action chain, and its actions are in `destOK`. -/
+example : Proofs.Dest.ActionChain
+    (.and 5 (.and 4 (.flags 3 [70]) (.move 4 [47, 65])) (.flag 5 [99, 117, 114]))
+    ([(3, .flags [70])] ++ [(4, .move [47, 65])] ++ [(5, .flag [99, 117, 114])]) :=
+  .and _ _ _ _ _ (.and _ _ _ _ _ (.flags _ _ (by decide)) (.move _ _ (by decide))) (.flag _ _ (by decide))
+
+example : Spec.destOK [.flags [70], .move [47, 65], .flag [99, 117, 114]] = true := by decide
+
+
+/-! ## The seen flag after a whole action list
+
+`C09_S_adjust` is about ONE `maildir_move`.  A rule may move the message several times and name the file again
+afterwards (`flag new label "x"`): every `maildir_move` adjusts the flag set the message carries in memory
+(`Model.adjustSeen`; /repo 7589fcb), and every later `maildir_move` / `maildir_write` writes the name from that set.
+`Proofs.FlagsSeq.visited ml` are the subdirectories of the destinations of the move / flag / flags entries of the match
+list, in order; `flagsThrough s0 mf subs` is `adjustSeen` folded along them. -/
+
+open Proofs.FlagsSeq in
+/-- The flag set after the message was taken from `s0` through the subdirectories `subs`: `S` is untouched when the
+message never changed its subdirectory, otherwise it is set iff the message is in `cur` at the end (the last change was
+into the subdirectory it is in); every other letter is as it was; the masks stay within the 26 letters. -/
+theorem C09_S_through (s0 : Subdir) (mf : MFlags) (subs : List Subdir) (h : Proofs.MFlags.Valid mf) :
+    (flagsIsSet (flagsThrough s0 mf subs) 83 =
+      if subs.all (· == s0) then flagsIsSet mf 83 else (lastSub s0 subs == .cur)) ∧
+    (∀ c, c ≠ 83 → flagsIsSet (flagsThrough s0 mf subs) c = flagsIsSet mf c) ∧
+    Proofs.MFlags.Valid (flagsThrough s0 mf subs) :=
+  ⟨flagsThrough_S subs s0 mf, fun c hc => flagsThrough_other c hc subs s0 mf, flagsThrough_valid subs s0 mf h⟩
+
+/-! Non-vacuity: `6.host:2,RS` (R and S) taken cur -> new -> cur has R and S; taken cur -> new it has R only. -/
+example : Proofs.FlagsSeq.flagsThrough .cur ⟨2 ^ 17 + 2 ^ 18, 0⟩ [.new, .cur] = ⟨2 ^ 17 + 2 ^ 18, 0⟩ ∧
+    Proofs.FlagsSeq.flagsThrough .cur ⟨2 ^ 17 + 2 ^ 18, 0⟩ [.new] = ⟨2 ^ 17, 0⟩ := by decide
+
+open Proofs.FlagsSeq in
+/-- The whole action list, for EVERY match list (any entries, any order, any number), every state `matches_exec`
+starts in, every world and EVERY fault plan: if `matches_exec` reports no error, then
+* the message is in the subdirectory of the last move / flag / flags entry (its own if there is none),
+* `S` of the flag set it carries is untouched if no entry took it to another subdirectory, and otherwise is set iff that
+  final subdirectory is `cur`,
+* every other flag is as it was when `matches_exec` started (`flags` letters are set before, at evaluation),
+* and if some entry named the file (move, flag, flags, label, add-header), the name it has now is a generated name
+  whose flag part is `message_flags_str` of exactly that set. -/
+theorem C09_S_after_sequence (env : PEnv) (ml : MatchList) (st : ExecSt) (w : World) (plan : Plan) (i : Nat) (hist : List World)
+    (hok : (runPlan plan (matchesExec env ml st) w i hist).1.2 = false) :
+    (runPlan plan (matchesExec env ml st) w i hist).1.1.src.subdir = lastSub st.src.subdir (visited ml) ∧
+    (flagsIsSet (runPlan plan (matchesExec env ml st) w i hist).1.1.ms.flags 83 =
+      if (visited ml).all (· == st.src.subdir) then flagsIsSet st.ms.flags 83
+      else ((runPlan plan (matchesExec env ml st) w i hist).1.1.src.subdir == .cur)) ∧
+    (∀ c, c ≠ 83 → flagsIsSet (runPlan plan (matchesExec env ml st) w i hist).1.1.ms.flags c = flagsIsSet st.ms.flags c) ∧
+    ((∃ mh ∈ ml, renames mh = true) → ∃ fl c,
+      flagsStr (runPlan plan (matchesExec env ml st) w i hist).1.1.ms.flags Gen.flagsMax = some fl ∧
+      (runPlan plan (matchesExec env ml st) w i hist).1.1.ms.name = Proofs.World.cand env (some fl) c) := by
+  have h1 := all_runPlan plan (matchesExec_flags env ml st) w i hist hok
+  have h2 := all_runPlan plan (matchesExec_named env ml st) w i hist hok
+  refine ⟨h1.1, ?_, ?_, fun hex => h2 (.inl hex)⟩
+  · rw [h1.2, h1.1]; exact flagsThrough_S _ _ _
+  · intro c hc; rw [h1.2]; exact flagsThrough_other c hc _ _ _
+
+/-! Non-vacuity of `C09_S_after_sequence` (and the shape of seeded change C09-s8): the message `/a/cur/m:2,S` under the
+match list of `flag new label "x"` - a `flag` entry with destination `/a/new`, then a `label` entry - in a world with the
+two directories, without faults.  `matches_exec` reports no error; the message is in `new`, its flag set is empty, and the
+name the `label` rewrite gave it is `1.2_2.h:2,` (no `S`): the first name `1.2_1.h:2,` is the one `flag new` gave it. -/
+namespace C09SeqEx
+
+def env : PEnv :=
+  { now := 1, pid := 2, host := [104], random := 0, tmpdir := [116], home := [104], confpath := [99],
+    dryrun := false, syntaxOnly := false, stdinMode := false }
+def cur : Bytes := [47, 97, 47, 99, 117, 114]
+def new : Bytes := [47, 97, 47, 110, 101, 119]
+def nameS : Bytes := [109, 58, 50, 44, 83]
+def content : Bytes := [65, 58, 32, 49, 10, 10, 120, 10]
+def world : World :=
+  { dirs := [(cur, [(nameS, 0)]), (new, [])], files := [(0, ⟨content, content⟩)], nextFid := 1,
+    handles := [.dir cur none 0], devs := [], mtimes := [(0, 1000)], trace := [] }
+def src : Maildir := { root := [47, 97], path := cur, dirH := some 0, subdir := .cur, walk := true, stdin := false }
+def ms : MsgSt :=
+  { name := nameS, path := cur ++ [47] ++ nameS, fd := none, msg := { headers := [⟨0, [65], [49]⟩], body := [120, 10] },
+    parts := [], flags := ⟨2 ^ 18, 0⟩, loc := some (cur, nameS), content := content }
+def ml : MatchList := [{ ty := .flag, lno := 1, part := 0, path := new }, { ty := .label, lno := 1, part := 0 }]
+def st : ExecSt := { src := src, chsrc := false, ms := ms, reject := false }
+def result : ExecSt × Bool := (runPlan Plan.none (matchesExec env ml st) world 0 []).1
+
+end C09SeqEx
+
+open C09SeqEx in
+example : result.2 = false ∧ result.1.src.subdir = .new ∧ result.1.ms.flags = ⟨0, 0⟩ ∧
+    result.1.ms.name = [49, 46, 50, 95, 50, 46, 104, 58, 50, 44] ∧
+    Proofs.FlagsSeq.visited ml = [.new] ∧ (∃ mh ∈ ml, Proofs.FlagsSeq.renames mh = true) := by
+  refine ⟨by decide +kernel, by decide +kernel, by decide +kernel, by decide +kernel, by decide +kernel, ?_⟩
+  exact ⟨_, List.mem_cons_self, by decide⟩
+
+open Proofs.FlagsSeq in
+/-- The same against ARBITRARY call results (any file system, any interleaving with other parties). -/
+theorem C09_S_after_sequence_any_results (env : PEnv) (ml : MatchList) (st : ExecSt) (orc : Nat → Call → Res) (i : Nat)
+    (tr : List (Call × Res)) (hok : (runOracle orc (matchesExec env ml st) i tr).1.2 = false) :
+    (runOracle orc (matchesExec env ml st) i tr).1.1.src.subdir = lastSub st.src.subdir (visited ml) ∧
+    (runOracle orc (matchesExec env ml st) i tr).1.1.ms.flags = flagsThrough st.src.subdir st.ms.flags (visited ml) :=
+  all_runOracle orc (matchesExec_flags env ml st) i tr hok
+
+open Proofs.FlagsSeq in
+/-- Corollary in the words of the property: when the message ends in ANOTHER subdirectory than it started in, it has
+`S` iff it is in `cur` now ("taken from new to cur gains the S flag, taken from cur to new loses it"), whatever it was
+taken through in between. -/
+theorem C09_S_after_subdir_change (env : PEnv) (ml : MatchList) (st : ExecSt) (w : World) (plan : Plan) (i : Nat) (hist : List World)
+    (hok : (runPlan plan (matchesExec env ml st) w i hist).1.2 = false)
+    (hne : (runPlan plan (matchesExec env ml st) w i hist).1.1.src.subdir ≠ st.src.subdir) :
+    flagsIsSet (runPlan plan (matchesExec env ml st) w i hist).1.1.ms.flags 83 =
+      ((runPlan plan (matchesExec env ml st) w i hist).1.1.src.subdir == .cur) := by
+  have h := C09_S_after_sequence env ml st w plan i hist hok
+  rw [h.2.1]
+  split
+  · rename_i hall
+    exact absurd (h.1.trans (lastSub_of_all _ _ hall)) hne
+  · rfl
+
+open Proofs.FlagsSeq in
+/-- ... and for the action lists of the documentation: for every action list inside `Spec.destOK` (hypotheses of
+`C09_destination_partial`), `ml` the match list `matches_append` builds from it after any list `ml0` without
+move/flag/flags entries, and the documented destination naming the subdirectory `sd`: a run of `matches_exec` over `ml`
+that reports no error leaves the message in `sd` - the subdirectory of the last `flag`, else its own - and with `S` iff
+`sd` is `cur` whenever an entry took it to another subdirectory on the way; every other flag preserved. -/
+theorem C09_S_after_sequence_destOK (eenv : Env) (env : PEnv) (root sub name : Bytes) (ml0 ml : MatchList)
+    (actions : List Spec.PathAction) (sd : Subdir)
+    (hpath : eenv.path = root ++ [47] ++ sub ++ [47] ++ name)
+    (hroot : root ≠ []) (hsub : (47 : UInt8) ∉ sub) (hname : (47 : UInt8) ∉ name) (hsubl : sub.length < NAME_MAX1)
+    (hwf : Spec.actionsWF actions = true) (hfit : Spec.destFits PATH_MAX (root, sub) actions = true)
+    (hml0 : ∀ e ∈ ml0, e.moves = false) (hdok : Spec.destOK actions = true) (hne : actions ≠ [])
+    (happ : appendAll eenv ml0 (actions.map (pathEntry 0 0)) = some ml)
+    (hsd : parseSubdir (Spec.destPath (root, sub) actions) = some sd)
+    (st : ExecSt) (w : World) (plan : Plan) (i : Nat) (hist : List World)
+    (hok : (runPlan plan (matchesExec env ml st) w i hist).1.2 = false) :
+    (runPlan plan (matchesExec env ml st) w i hist).1.1.src.subdir = sd ∧
+    (flagsIsSet (runPlan plan (matchesExec env ml st) w i hist).1.1.ms.flags 83 =
+      if (visited ml).all (· == st.src.subdir) then flagsIsSet st.ms.flags 83 else (sd == .cur)) ∧
+    (∀ c, c ≠ 83 → flagsIsSet (runPlan plan (matchesExec env ml st) w i hist).1.1.ms.flags c = flagsIsSet st.ms.flags c) := by
+  have hfp := Proofs.Dest.finalPlace_eq_dest eenv root sub name ml0 actions hpath hroot hsub hname hsubl hwf hfit hml0 hdok
+  have hemp : actions.isEmpty = false := by cases actions with | nil => exact absurd rfl hne | cons _ _ => rfl
+  unfold finalPlace at hfp
+  rw [happ, hemp] at hfp
+  have hlast : lastPath ml = some (Spec.destPath (root, sub) actions) := by simpa using hfp
+  have h := C09_S_after_sequence env ml st w plan i hist hok
+  have hs : (runPlan plan (matchesExec env ml st) w i hist).1.1.src.subdir = sd :=
+    h.1.trans (lastSub_visited _ sd hsd ml st.src.subdir hlast)
+  refine ⟨hs, ?_, h.2.2.1⟩
+  rw [h.2.1, hs]
+
+/-! Non-vacuity of `C09_S_after_sequence_destOK`: `move "/B" flag !new` on `/S/new/1` (witness environment above)
+satisfies the hypotheses on the action list: it is in `destOK`, `matches_append` builds a match list, and the documented
+destination `/B/cur` names the subdirectory `cur`. -/
+example : Spec.destOK [.move [47, 66], .flag [99, 117, 114]] = true ∧
+    Spec.actionsWF [.move [47, 66], .flag [99, 117, 114]] = true ∧
+    Spec.destFits PATH_MAX ([47, 83], [110, 101, 119]) [.move [47, 66], .flag [99, 117, 114]] = true ∧
+    (appendAll destWitnessEnv [] ([Spec.PathAction.move [47, 66], .flag [99, 117, 114]].map (pathEntry 0 0))).isSome = true ∧
+    parseSubdir (Spec.destPath ([47, 83], [110, 101, 119]) [.move [47, 66], .flag [99, 117, 114]]) = some .cur := by
+  decide
 
 end Mdsort.Props
